@@ -372,6 +372,12 @@ func (c08) Case(c *core.Ctx) {
 		c08collidingSpecs(c)
 	}
 	keys := keyAlphabet(r, c07keys)
+	if r.Intn(8) == 0 {
+		// keys spelled like attributes under one prefix or another: for the queries they are keys like any other, and a
+		// sub-key label names exactly the key it spells, whatever attribute prefix is in force
+		keys = []string{"a", "-a", "@a", "attr_a", "k", "-k", "@k", "-Id", "-id"}
+		c.Count("keys:attribute-like")
+	}
 	g := jv.GenOpt{Keys: keys, MaxFan: 3, WideProb: 25, ListInList: r.Intn(12) == 0, EmptyConts: true, Nulls: true, Scalars: c08scalar}.Fresh()
 	root := jv.M{"doc": g.Value(r, 1+r.Intn(5), false)}
 	if r.Intn(5) == 0 {
